@@ -269,7 +269,20 @@ where
         let task = tokio::task::spawn_local(async move {
             let _ = c02::send_request(&ks, &pool2, &req).await;
         });
-        settle().await;
+        // the storage call may run on the backend's own thread: wait (in real time) until
+        // it has done its writes and parked, or until the request ended without touching
+        // storage; only then is this the crash point the case says it is
+        let started = std::time::Instant::now();
+        loop {
+            settle().await;
+            if store.has_parked() || task.is_finished() {
+                break;
+            }
+            if started.elapsed() > std::time::Duration::from_secs(30) {
+                return Err("HARNESS in-flight request neither parked nor finished within 30 s".to_string());
+            }
+            std::thread::sleep(std::time::Duration::from_micros(50));
+        }
         task.abort();
         store.plan([]);
     }
@@ -296,7 +309,7 @@ where
             let fp = match first_life(pool, store.clone(), history, None).await {
                 Ok(fp) => fp,
                 Err(e) => {
-                    let key = if e.starts_with("ACK-NOT-DURABLE") { "acknowledged-mutation-not-in-storage" } else { "first-life-failed" };
+                    let key = if e.starts_with("ACK-NOT-DURABLE") { "acknowledged-mutation-not-in-storage" } else if e.starts_with("HARNESS") { "harness/first-life" } else { "first-life-failed" };
                     st.violation(key, || e.clone(), || case_json(pool, store_name, history, "would be lost by a restart at any later point", None));
                     return None;
                 },
@@ -350,7 +363,7 @@ async fn execute_mid_request<I>(
             let _wall = Wall::start();
             let store = Arc::new(FaultStore::new(inner));
             if let Err(e) = first_life(pool, store.clone(), history, Some((next, k))).await {
-                st.violation("first-life-failed", || e.clone(), || case_json(pool, store_name, history, "-", Some(next)));
+                st.violation(if e.starts_with("HARNESS") { "harness/first-life" } else { "first-life-failed" }, || e.clone(), || case_json(pool, store_name, history, "-", Some(next)));
                 return;
             }
             let parked = store.log().last().map_or(false, |l| matches!(l.fault, Fault::ParkAfter(_)));
@@ -444,13 +457,15 @@ fn persistent_case(pool: &[Op], backend: &'static str, n: usize, history: &[KSte
             .await
     });
     if let Some(env) = lmdb_env.take() {
-        // every other clone died with the runtime (the worker thread exits once its channel closes)
+        // every handle died with the runtime, so the worker thread is on its way out; the
+        // environment is closed only once that thread is gone (see c17.rs, Lmdb::close)
+        datacake_lmdb::verif::join_worker(env.path());
         env.prepare_for_closing().wait();
     } else {
         std::thread::sleep(std::time::Duration::from_millis(2));
     }
     if let Err(e) = first {
-        st.violation("first-life-failed", || e.clone(), || case_json(pool, backend, history, "-", in_flight.map(|x| x.0)));
+        st.violation(if e.starts_with("HARNESS") { "harness/first-life" } else { "first-life-failed" }, || e.clone(), || case_json(pool, backend, history, "-", in_flight.map(|x| x.0)));
         let _ = std::fs::remove_dir_all(&dir);
         return;
     }
@@ -475,6 +490,7 @@ fn persistent_case(pool: &[Op], backend: &'static str, n: usize, history: &[KSte
         }
     });
     if let Some(env) = env_again.take() {
+        datacake_lmdb::verif::join_worker(env.path());
         env.prepare_for_closing().wait();
     }
     let _ = std::fs::remove_dir_all(&dir);
